@@ -713,6 +713,10 @@ impl<'a> G<'a> {
                                 } else {
                                     Expr::In(id)
                                 }
+                            } else if self.rng.chance(1, 6) {
+                                // the condition is a value, not a comparison: a collection counts as true also when
+                                // it is empty
+                                Expr::Var("q".into())
                             } else if !self.vars.is_empty() {
                                 Expr::Lt(Box::new(Expr::Var(self.rng.pick(&self.vars).clone())), Box::new(Expr::Int(self.rng.below(4) as i64)))
                             } else {
@@ -1129,6 +1133,13 @@ pub fn generate(rng: &mut Rng, p: &Profile, name: &str) -> Doc {
             g.vars.push(format!("v{}", k));
         }
         g.vars.push("budget".into());
+        // a data element whose initial value is a system variable: they are bound before the data model is
+        // initialised
+        // (rfsm-expression only: the ECMAScript binding hands out _sessionid as a BigInt, which cannot be mixed
+        // with the numbers of the generated arithmetic)
+        if p.event_fields > 0 && !p.late && p.dm == Dm::Rfsm {
+            g.vars.push("sid0".into());
+        }
     }
     assign_state_data(&mut g, &mut root, 0);
     let mut ids = Vec::new();
@@ -1142,7 +1153,13 @@ pub fn generate(rng: &mut Rng, p: &Profile, name: &str) -> Doc {
         if v.starts_with('w') {
             continue;
         }
-        let init = if v == "budget" { Expr::Int(2 + g.rng.below(3) as i64) } else { Expr::Int(g.rng.below(3) as i64) };
+        let init = if v == "budget" {
+            Expr::Int(2 + g.rng.below(3) as i64)
+        } else if v == "sid0" {
+            Expr::SessionId
+        } else {
+            Expr::Int(g.rng.below(3) as i64)
+        };
         decls.push(DataDecl { id: v, expr: Some(init) });
     }
     if p.dm != Dm::Null {
